@@ -200,7 +200,8 @@ func read(r io.Reader) (map[byte][]bucket, error) {
 	var h = map[byte][]bucket{}
 
 	var tag, n byte
-	var lastItemWasDelimiter bool
+	var delimiters int          // number of delimiters read so far
+	var seenAt = map[byte]int{} // value of delimiters when a tag was last seen
 	for {
 		if err := binary.Read(r, binary.LittleEndian, &tag); err != nil {
 			if err == io.EOF {
@@ -218,18 +219,19 @@ func read(r io.Reader) (map[byte][]bucket, error) {
 		}
 
 		if len(v) > 0 {
-			if l, ok := h[tag]; ok {
-				if lastItemWasDelimiter {
-					h[tag] = append(l, v)
-				} else {
-					h[tag] = []bucket{append(l[0], v...)}
-				}
+			if l, ok := h[tag]; ok && seenAt[tag] == delimiters {
+				// continues the previous item of this tag (fragmented value)
+				l[len(l)-1] = append(l[len(l)-1], v...)
 			} else {
-				h[tag] = []bucket{v}
+				// first item of this tag since the last delimiter
+				h[tag] = append(h[tag], v)
 			}
+			seenAt[tag] = delimiters
 		}
 
-		lastItemWasDelimiter = tag == 0 && n == 0
+		if tag == 0 && n == 0 {
+			delimiters++
+		}
 	}
 
 	return h, nil
